@@ -13,6 +13,7 @@ import (
 	"fmt"
 	"go/token"
 	"go/types"
+	"golang.org/x/tools/go/ssa/ssautil"
 	"os"
 	"sort"
 	"strings"
@@ -80,6 +81,7 @@ type LB struct {
 	Proved        int
 	Unproved      int
 	UsedContracts map[string]bool
+	curBlock      *ssa.BasicBlock // block of the obligation being proved
 }
 
 // repoLenContracts: len(result #result of f) == integer parameter #param. Each entry is
@@ -128,6 +130,10 @@ func lenBase(v ssa.Value) ssa.Value {
 		v = r
 	}
 	for {
+		if r := storeFwd(v); r != nil {
+			v = r
+			continue
+		}
 		switch x := v.(type) {
 		case *ssa.ChangeType:
 			v = x.X
@@ -147,15 +153,33 @@ func lenBase(v ssa.Value) ssa.Value {
 	}
 }
 
+func isBoolType(t types.Type) bool {
+	b, ok := t.Underlying().(*types.Basic)
+	return ok && b.Info()&types.IsBoolean != 0
+}
+
 func (lb *LB) linOf(v ssa.Value) lin {
 	if k, ok := constInt(v); ok {
 		return linConst(k)
+	}
+	// booleans are modelled as 0/1 integers (flags such as `indefinite` that select between exits)
+	if cb, ok := constBool(v); ok {
+		if cb {
+			return linConst(1)
+		}
+		return linConst(0)
 	}
 	if r := lb.fieldRep(v); r != nil {
 		v = r
 	}
 	switch x := v.(type) {
 	case *ssa.BinOp:
+		if bits, _, ok := intKind(x.Type()); ok && bits < 64 && (x.Op == token.ADD || x.Op == token.MUL || x.Op == token.SHL) {
+			// arithmetic in a narrow type wraps: linear only when the exact result provably fits the type
+			if !lb.wrapOK(x) {
+				return linVar(lvar{0, v})
+			}
+		}
 		switch x.Op {
 		case token.ADD:
 			return lb.linOf(x.X).addScaled(lb.linOf(x.Y), 1)
@@ -177,9 +201,7 @@ func (lb *LB) linOf(v ssa.Value) lin {
 			}
 		case token.SHL:
 			if k, ok := constInt(x.Y); ok && k >= 0 && k < 24 {
-				if bits, _, _ := intKind(x.Type()); bits >= 32 {
-					return lb.linOf(x.X).scale(1 << uint(k))
-				}
+				return lb.linOf(x.X).scale(1 << uint(k))
 			}
 		}
 	case *ssa.Convert:
@@ -308,6 +330,59 @@ func (lb *LB) fieldRep(v ssa.Value) ssa.Value {
 	return v
 }
 
+// wrapOK: the exact (unbounded) value of a narrow-typed x.X op x.Y provably lies in the type's range
+func (lb *LB) wrapOK(x *ssa.BinOp) bool {
+	if lb.side == nil {
+		lb.side = map[*ssa.BinOp]int{}
+	}
+	switch lb.side[x] {
+	case 1, 3:
+		return false
+	case 2:
+		return true
+	}
+	lb.side[x] = 1
+	bits, uns, _ := intKind(x.Type())
+	a, b := lb.linOf(x.X), lb.linOf(x.Y)
+	var exact lin
+	okExact := true
+	switch x.Op {
+	case token.ADD:
+		exact = a.addScaled(b, 1)
+	case token.MUL:
+		switch {
+		case len(a.c) == 0 && abs64(a.k) < 1<<20:
+			exact = b.scale(a.k)
+		case len(b.c) == 0 && abs64(b.k) < 1<<20:
+			exact = a.scale(b.k)
+		default:
+			okExact = false
+		}
+	case token.SHL:
+		if k, ok := constInt(x.Y); ok && k >= 0 && k < 24 {
+			exact = a.scale(1 << uint(k))
+		} else {
+			okExact = false
+		}
+	}
+	ok := false
+	if okExact {
+		hi := int64(1)<<uint(bits) - 1
+		lo := int64(0)
+		if !uns {
+			hi = int64(1)<<uint(bits-1) - 1
+			lo = -hi - 1
+		}
+		ok = lb.prove([]cons{le(exact, linConst(hi)), ge(exact, linConst(lo))}, x.Block(), nil, map[lvar]lin{}, 2)
+	}
+	if ok {
+		lb.side[x] = 2
+	} else {
+		lb.side[x] = 3
+	}
+	return ok
+}
+
 // sideOK: the unsigned subtraction x.X - x.Y provably does not wrap at its own program point
 func (lb *LB) sideOK(x *ssa.BinOp) bool {
 	if lb.side == nil {
@@ -371,6 +446,7 @@ func (lb *LB) lenLin(v ssa.Value) lin {
 }
 
 var globalLenCache = map[*ssa.Global]int64{}
+var allFnsOf map[*ssa.Function]bool
 
 // globalSliceLen: a package-level slice assigned exactly once, in the package initialiser,
 // from a literal / make of constant length.
@@ -411,8 +487,12 @@ func globalSliceLen(g *ssa.Global) (int64, bool) {
 			scan(a)
 		}
 	}
-	for _, m := range g.Pkg.Members {
-		if f, ok := m.(*ssa.Function); ok {
+	// every function and method of the package (methods are not package members)
+	if allFnsOf == nil {
+		allFnsOf = ssautil.AllFunctions(g.Pkg.Prog)
+	}
+	for f := range allFnsOf {
+		if f.Pkg == g.Pkg && f.Parent() == nil {
 			scan(f)
 		}
 	}
@@ -421,8 +501,12 @@ func globalSliceLen(g *ssa.Global) (int64, bool) {
 	}
 	switch x := val.(type) {
 	case *ssa.Slice:
-		if n, ok := staticLen(x.X.Type()); ok && x.Low == nil && x.High == nil {
-			res = n
+		if n, ok := staticLen(x.X.Type()); ok && x.Low == nil {
+			if x.High == nil {
+				res = n
+			} else if h, ok := constInt(x.High); ok && h >= 0 && h <= n {
+				res = h
+			}
 		}
 	case *ssa.MakeSlice:
 		if n, ok := constInt(x.Len); ok {
@@ -636,6 +720,7 @@ func (lb *LB) defFacts(v lvar) []cons {
 				if k, ok := lb.loopLenInvariant(x); ok {
 					out = append(out, eqc(me, linConst(k))...)
 				}
+				out = append(out, lb.slicePhiFacts(x)...)
 			}
 		case *ssa.Call:
 			if bi, ok := x.Call.Value.(*ssa.Builtin); ok && bi.Name() == "append" && len(x.Call.Args) == 2 {
@@ -647,6 +732,7 @@ func (lb *LB) defFacts(v lvar) []cons {
 			}
 		case *ssa.Extract:
 			if call, ok := x.Tuple.(*ssa.Call); ok {
+				out = append(out, lb.restContract(x, call, me)...)
 				if sc := call.Call.StaticCallee(); sc != nil && inRepo(sc) {
 					if ct, ok := repoLenContracts[fname(sc)]; ok && ct.result == x.Index && ct.param < len(call.Call.Args) {
 						out = append(out, eqc(me, lb.linOf(call.Call.Args[ct.param]))...)
@@ -659,11 +745,25 @@ func (lb *LB) defFacts(v lvar) []cons {
 	}
 	// int value
 	val := v.v
+	if isBoolType(val.Type()) {
+		out = append(out, ge(me, linConst(0)), le(me, linConst(1)))
+		return out
+	}
 	bits, uns, ok := intKind(val.Type())
 	if ok && uns {
 		out = append(out, ge(me, linConst(0)))
 		if bits <= 32 {
 			out = append(out, le(me, linConst(int64(1)<<uint(bits)-1)))
+		}
+	}
+	switch val.(type) {
+	case *ssa.Phi, *ssa.BinOp:
+		if rb := lb.lowerRel(val, nil, 0); rb.ok {
+			if rb.base == nil {
+				out = append(out, ge(me, linConst(rb.c)))
+			} else {
+				out = append(out, ge(me, linVar(lvar{0, rb.base}).addScaled(linConst(rb.c), 1)))
+			}
 		}
 	}
 	switch x := val.(type) {
@@ -678,6 +778,10 @@ func (lb *LB) defFacts(v lvar) []cons {
 		if ok1 && ok2 && du && !su && db >= sb {
 			// uint(x): equals x when x >= 0 — only the lower bound is sound unconditionally
 			out = append(out, ge(me, linConst(0)))
+		}
+		if ok1 && ok2 && db < sb && du && lb.nonneg(x.X, 0) {
+			// truncation of a non-negative value: x mod 2^db <= x
+			out = append(out, ge(me, linConst(0)), le(me, lb.linOf(x.X)))
 		}
 	case *ssa.BinOp:
 		a, b := lb.linOf(x.X), lb.linOf(x.Y)
@@ -709,9 +813,11 @@ func (lb *LB) defFacts(v lvar) []cons {
 		case token.SHR:
 			if lb.nonneg(x.X, 0) {
 				out = append(out, ge(me, linConst(0)), le(me, a))
-				if k, ok := constInt(x.Y); ok && k >= 0 && k < 40 {
-					out = append(out, le(me.scale(1<<uint(k)), a))
-				}
+			}
+			// x >> k is floor(x / 2^k) for either sign
+			if k, ok := constInt(x.Y); ok && k >= 0 && k < 40 {
+				p2 := int64(1) << uint(k)
+				out = append(out, le(me.scale(p2), a), le(a, me.scale(p2).addScaled(linConst(p2-1), 1)))
 			}
 		case token.REM:
 			if k, ok := constInt(x.Y); ok && k > 0 {
@@ -745,6 +851,10 @@ func (lb *LB) defFacts(v lvar) []cons {
 	case *ssa.Phi:
 		if l, ok := lb.inductionLower(x); ok {
 			out = append(out, ge(me, l))
+		} else if isLoopHeader(x.Block()) {
+			if l, ok := lb.loopLowerInvariant(x); ok {
+				out = append(out, ge(me, l))
+			}
 		}
 		if l, ok := lb.inductionUpper(x); ok {
 			out = append(out, le(me, l))
@@ -773,6 +883,15 @@ func (lb *LB) defFacts(v lvar) []cons {
 				out = append(out, ge(me, linConst(0)))
 			case "Sign", "Cmp", "CmpAbs":
 				out = append(out, ge(me, linConst(-1)), le(me, linConst(1)))
+			}
+		}
+		if x.Call.IsInvoke() && len(x.Call.Args) == 0 {
+			// hash.Hash.Size / BlockSize, cipher.Block(Mode).BlockSize: documented as a (positive) size
+			switch x.Call.Method.Name() {
+			case "Size":
+				out = append(out, ge(me, linConst(1)))
+			case "BlockSize":
+				out = append(out, ge(me, linConst(1)))
 			}
 		}
 		if bi, ok := x.Call.Value.(*ssa.Builtin); ok && bi.Name() == "copy" {
@@ -816,7 +935,20 @@ func (lb *LB) callLenContract(c *ssa.Call) ([]cons, bool) {
 				return eqc(me, lb.lenLin(cc.Args[0]).addScaled(linConst(32), 1)), true
 			}
 		}
-		return []cons{ge(me, lb.lenLin(cc.Args[0]).addScaled(linConst(add), 1))}, true
+		out := []cons{ge(me, lb.lenLin(cc.Args[0]).addScaled(linConst(add), 1))}
+		// h.Sum(b) appends exactly h.Size() bytes: tie to a Size() call on the same hash object
+		if f := c.Parent(); f != nil {
+			var size *ssa.Call
+			instrsOf(f, func(_ *ssa.BasicBlock, in ssa.Instruction) {
+				if sc, ok := in.(*ssa.Call); ok && size == nil && sc.Call.IsInvoke() && sc.Call.Method.Name() == "Size" && sc.Call.Value == cc.Value {
+					size = sc
+				}
+			})
+			if size != nil {
+				out = append(out, eqc(me, lb.lenLin(cc.Args[0]).addScaled(linVar(lvar{0, size}), 1))...)
+			}
+		}
+		return out, true
 	}
 	sc := cc.StaticCallee()
 	if sc == nil {
@@ -905,9 +1037,23 @@ func (lb *LB) condFacts(cond ssa.Value, truth bool) []cons {
 	}
 	bo, ok := cond.(*ssa.BinOp)
 	if !ok {
+		// a boolean variable used as the condition
+		switch cond.(type) {
+		case *ssa.Phi, *ssa.Parameter, *ssa.Extract, *ssa.Call, *ssa.UnOp:
+			if isBoolType(cond.Type()) {
+				k := int64(0)
+				if truth {
+					k = 1
+				}
+				return eqc(lb.linOf(cond), linConst(k))
+			}
+		}
 		return nil
 	}
 	if _, _, isInt := intKind(bo.X.Type()); !isInt {
+		if isNilConst(bo.Y) && (bo.Op == token.EQL || bo.Op == token.NEQ) {
+			return lb.nilTestFacts(bo.X, (bo.Op == token.EQL) == truth)
+		}
 		return nil
 	}
 	a, b := lb.linOf(bo.X), lb.linOf(bo.Y)
@@ -1161,6 +1307,11 @@ func (lb *LB) closure(cs []cons, subst map[lvar]lin) []cons {
 
 // prove: all goals hold at (block b, before instruction idx) given extra facts.
 func (lb *LB) prove(goals []cons, b *ssa.BasicBlock, extra []cons, subst map[lvar]lin, depth int) bool {
+	saved := lb.curBlock
+	if b != nil && b.Parent() == lb.f {
+		lb.curBlock = b
+	}
+	defer func() { lb.curBlock = saved }()
 	facts := append(append([]cons{}, lb.branchFacts(b)...), extra...)
 	facts = append(facts, lb.extra...)
 	return lb.proveWith(goals, facts, subst, depth)
@@ -1215,7 +1366,7 @@ func (lb *LB) proveWith(goals []cons, facts []cons, subst map[lvar]lin, depth in
 	if len(failing) == 0 {
 		return true
 	}
-	if depth == 0 && lbDump && lbSite {
+	if depth == 0 && lbDump && lbSite && strings.Contains(fname(lb.f), lbDumpFn) {
 		for _, g := range failing {
 			neg := cons{l: g.l.scale(-1)}
 			neg.l.k++
@@ -1326,16 +1477,47 @@ func (lb *LB) proveWith(goals []cons, facts []cons, subst map[lvar]lin, depth in
 			}
 		}
 		proved := false
-		for _, alts := range splits {
+		for si, alts := range splits {
+			if len(alts) == 0 {
+				continue // a case split needs at least one case
+			}
 			ok := true
-			for _, a := range alts {
+			for ai, a := range alts {
 				ef := append(append([]cons{}, facts...), a.facts...)
 				if !lb.proveWith([]cons{g}, ef, a.subst, depth+1) {
+					if lbDump && lbSite && strings.Contains(fname(lb.f), lbDumpFn) {
+						dbg("%*sdepth %d goal %s: split %d/%d alt %d/%d FAILED", depth*2, "", depth, linString(g.l), si+1, len(splits), ai+1, len(alts))
+						if depth+1 >= 4 || true {
+							neg := cons{l: lb.applySubst(g.l, a.subst).scale(-1)}
+							neg.l.k++
+							var sf2 []cons
+							for _, f := range ef {
+								if !f.ne {
+									sf2 = append(sf2, cons{l: lb.applySubst(f.l, a.subst)})
+								}
+							}
+							for _, c := range lb.closure(append(sf2, neg), a.subst) {
+								dbg("%*s    %s <= 0", depth*2, "", linString(c.l))
+							}
+						}
+					}
 					ok = false
 					break
 				}
 			}
 			if ok {
+				if lbDump && strings.Contains(fname(lb.f), lbDumpFn) {
+					dbg("%*sdepth %d goal %s PROVED by split %d/%d with %d alts", depth*2, "", depth, linString(g.l), si+1, len(splits), len(alts))
+					for ai, a := range alts {
+						dbg("%*s  alt %d facts:", depth*2, "", ai)
+						for _, f := range a.facts {
+							dbg("%*s     %s <= 0 ne=%v", depth*2, "", linString(f.l), f.ne)
+						}
+						for k, v := range a.subst {
+							dbg("%*s     subst %s#%d := %s", depth*2, "", k.v.Name(), k.kind, linString(v))
+						}
+					}
+				}
 				proved = true
 				break
 			}
@@ -1440,6 +1622,7 @@ type calleePath struct {
 	conds   []cons
 	results []ssa.Value
 	subst   map[lvar]lin // phi resolution along the path
+	failing bool         // the path returns a non-nil error
 }
 
 var calleePathCache = map[*ssa.Function][]calleePath{}
@@ -1506,6 +1689,23 @@ func (lb *LB) pathsOfCallee(f *ssa.Function) ([]calleePath, bool) {
 				}
 			}
 			cp.results = ret.Results
+			// does the path return a non-nil error? (a literal error, or a value the path has tested != nil)
+			nonNil := map[ssa.Value]bool{}
+			for j := 0; j+1 < len(path); j++ {
+				if ifi, ok := lastIf(path[j]); ok && path[j].Succs[0] != path[j].Succs[1] {
+					if bo, ok := ifi.Cond.(*ssa.BinOp); ok && isNilConst(bo.Y) {
+						taken := path[j].Succs[0] == path[j+1]
+						if (bo.Op == token.NEQ && taken) || (bo.Op == token.EQL && !taken) {
+							nonNil[bo.X] = true
+						}
+					}
+				}
+			}
+			for _, r := range ret.Results {
+				if isErrorType(r.Type()) && (nonNil[r] || definitelyNonNil(r, 0, map[ssa.Value]bool{})) {
+					cp.failing = true
+				}
+			}
 			out = append(out, cp)
 			return true
 		}
@@ -1535,7 +1735,9 @@ func (lb *LB) callAlts(call *ssa.Call, subst map[lvar]lin) ([]alt, bool) {
 	} else if mc, ok := call.Call.Value.(*ssa.MakeClosure); ok {
 		callee, _ = mc.Fn.(*ssa.Function)
 	}
-	if callee == nil {
+	if callee == nil || callee == lb.f {
+		// a recursive call: the callee's variables are this function's own variables (another activation);
+		// a path summary would confuse the two. Recursive calls are described by repoIntContracts only.
 		return nil, false
 	}
 	paths, ok := lb.pathsOfCallee(callee)
@@ -1554,8 +1756,45 @@ func (lb *LB) callAlts(call *ssa.Call, subst map[lvar]lin) ([]alt, bool) {
 			ps[lvar{1, prm}] = lb.lenLin(args[i])
 		}
 	}
+	// the obligation lies on the caller's path where the call's error result was tested to be nil:
+	// callee paths that return a non-nil error cannot have been taken
+	errNil := false
+	if lb.curBlock != nil && call.Parent() == lb.f {
+		if refs := call.Referrers(); refs != nil {
+			for _, u := range *refs {
+				ex, ok := u.(*ssa.Extract)
+				if !ok || !isErrorType(ex.Type()) {
+					continue
+				}
+				for _, u2 := range *ex.Referrers() {
+					bo, ok := u2.(*ssa.BinOp)
+					if !ok || !isNilConst(bo.Y) || bo.X != ssa.Value(ex) {
+						continue
+					}
+					for _, u3 := range *bo.Referrers() {
+						ifi, ok := u3.(*ssa.If)
+						if !ok {
+							continue
+						}
+						var t *ssa.BasicBlock
+						if bo.Op == token.NEQ {
+							t = ifi.Block().Succs[1]
+						} else if bo.Op == token.EQL {
+							t = ifi.Block().Succs[0]
+						}
+						if t != nil && len(t.Preds) == 1 && (t == lb.curBlock || t.Dominates(lb.curBlock)) {
+							errNil = true
+						}
+					}
+				}
+			}
+		}
+	}
 	var alts []alt
 	for _, cp := range paths {
+		if errNil && cp.failing {
+			continue
+		}
 		ns := map[lvar]lin{}
 		for k, v := range subst {
 			ns[k] = v
@@ -1753,6 +1992,9 @@ func loadRep(v ssa.Value) ssa.Value {
 	if !ok || ld.Op != token.MUL {
 		return nil
 	}
+	if al, ok := ld.X.(*ssa.Alloc); ok {
+		return loadRepVar(ld, al)
+	}
 	fa, ok := ld.X.(*ssa.FieldAddr)
 	if !ok {
 		return nil
@@ -1830,6 +2072,7 @@ func loadRep(v ssa.Value) ssa.Value {
 }
 
 var lbSite bool
+var lbDumpFn = os.Getenv("GMSMCHECK_LBFUNC")
 var lbDump = os.Getenv("GMSMCHECK_LBDUMP") != ""
 
 func linString(l lin) string {
@@ -1843,4 +2086,509 @@ func linString(l lin) string {
 	}
 	sort.Strings(parts)
 	return strings.Join(parts, " + ") + fmt.Sprintf(" + %d", l.k)
+}
+
+// slicePhiFacts: a loop-header slice d with d = d[k:] on its only back edge (k constant) shrinks by k per
+// iteration: len(d) <= len(d0), and len(d0) - len(d) advances in lockstep with every integer counter of
+// the same header that steps once per back edge.
+func (lb *LB) slicePhiFacts(phi *ssa.Phi) []cons {
+	h := phi.Block()
+	if len(phi.Edges) != 2 {
+		return nil
+	}
+	var entry ssa.Value
+	var k int64 = -1
+	for i, e := range phi.Edges {
+		if h.Dominates(h.Preds[i]) {
+			sl, ok := e.(*ssa.Slice)
+			if !ok || sl.X != ssa.Value(phi) || sl.High != nil || sl.Max != nil {
+				return nil
+			}
+			if sl.Low == nil {
+				k = 0
+			} else if c, ok := constInt(sl.Low); ok && c >= 0 {
+				k = c
+			} else {
+				return nil
+			}
+		} else {
+			entry = e
+		}
+	}
+	if entry == nil || k < 0 {
+		return nil
+	}
+	me := linVar(lvar{1, phi})
+	l0 := lb.lenLin(entry)
+	if _, dep := l0.c[lvar{1, phi}]; dep {
+		return nil
+	}
+	out := []cons{le(me, l0)}
+	for _, q := range phisOf(h) {
+		if q == phi {
+			continue
+		}
+		iv, ok := inductionOf(q)
+		if !ok || iv.step == 0 {
+			continue
+		}
+		// q's constant edge must be the entry edge
+		ci := -1
+		for i, e := range q.Edges {
+			if _, isC := constInt(e); isC {
+				ci = i
+			}
+		}
+		if ci < 0 || h.Dominates(h.Preds[ci]) {
+			continue
+		}
+		// (q - q0)*k == (len(d0) - len(d))*step
+		l := linVar(lvar{0, q}).addScaled(linConst(iv.init), -1).scale(k)
+		r := l0.addScaled(me, -1).scale(iv.step)
+		out = append(out, eqc(l, r)...)
+	}
+	return out
+}
+
+// storeFwd: the value a field load observes when exactly one store to that field of the same base object
+// dominates the load and no other possible writer of the field (a store to the same field of any object of
+// that struct type, a call or closure that receives the base object) can execute between the store and the load.
+var storeFwdCache = map[ssa.Value]ssa.Value{}
+
+func storeFwd(v ssa.Value) ssa.Value {
+	ld, ok := v.(*ssa.UnOp)
+	if !ok || ld.Op != token.MUL {
+		return nil
+	}
+	fa, ok := ld.X.(*ssa.FieldAddr)
+	if !ok {
+		return nil
+	}
+	switch fa.X.(type) {
+	case *ssa.Parameter, *ssa.Alloc:
+	default:
+		return nil
+	}
+	if r, ok := storeFwdCache[v]; ok {
+		return r
+	}
+	storeFwdCache[v] = nil
+	f := ld.Parent()
+	if f == nil {
+		return nil
+	}
+	var writers []ssa.Instruction
+	var cands []*ssa.Store
+	baseT := fa.X.Type().String()
+	instrsOf(f, func(_ *ssa.BasicBlock, in ssa.Instruction) {
+		switch x := in.(type) {
+		case *ssa.Store:
+			if fa2, ok := x.Addr.(*ssa.FieldAddr); ok && fa2.Field == fa.Field && fa2.X.Type().String() == baseT {
+				writers = append(writers, x)
+				if fa2.X == fa.X {
+					cands = append(cands, x)
+				}
+				return
+			}
+			// the whole struct overwritten, or the field's address stored somewhere
+			if x.Addr == fa.X {
+				writers = append(writers, x)
+			}
+			if fa2, ok := x.Val.(*ssa.FieldAddr); ok && fa2.Field == fa.Field && fa2.X.Type().String() == baseT {
+				writers = append(writers, x)
+			}
+		case ssa.CallInstruction:
+			for _, a := range x.Common().Args {
+				if a == fa.X || a.Type().String() == baseT {
+					writers = append(writers, x)
+					return
+				}
+				if fa2, ok := a.(*ssa.FieldAddr); ok && fa2.X.Type().String() == baseT && fa2.Field == fa.Field {
+					writers = append(writers, x)
+					return
+				}
+				if mi, ok := a.(*ssa.MakeInterface); ok && (mi.X == fa.X || mi.X.Type().String() == baseT) {
+					writers = append(writers, x)
+					return
+				}
+			}
+			if x.Common().IsInvoke() && x.Common().Value == fa.X {
+				writers = append(writers, x)
+			}
+		case *ssa.MakeClosure:
+			for _, b := range x.Bindings {
+				if b == fa.X {
+					writers = append(writers, x)
+				}
+			}
+		}
+	})
+	var best *ssa.Store
+	for _, st := range cands {
+		if !instrDominates(st, ld) {
+			continue
+		}
+		ok := true
+		for _, w := range writers {
+			if w == ssa.Instruction(st) {
+				continue
+			}
+			if instrReaches(w, ld, st) && (instrReaches(st, w, nil) || !instrDominates(w, st)) {
+				ok = false
+				break
+			}
+		}
+		if ok {
+			best = st
+		}
+	}
+	if best == nil {
+		return nil
+	}
+	storeFwdCache[v] = best.Val
+	return best.Val
+}
+
+// loadRepVar: two loads of a local variable (e.g. a slice filled by asn1.Unmarshal(..., &v)) denote the same
+// value when no store to the variable and no call or closure that received its address can execute between them.
+func loadRepVar(ld *ssa.UnOp, al *ssa.Alloc) ssa.Value {
+	if r, ok := loadRepCache[ld]; ok {
+		return r
+	}
+	loadRepCache[ld] = nil
+	var writers []ssa.Instruction
+	var loads []*ssa.UnOp
+	for _, u := range *al.Referrers() {
+		switch x := u.(type) {
+		case *ssa.UnOp:
+			if x.Op == token.MUL {
+				loads = append(loads, x)
+			}
+		case *ssa.Store:
+			if x.Addr == ssa.Value(al) {
+				writers = append(writers, x)
+			} else {
+				return nil // the address itself is stored somewhere
+			}
+		case ssa.CallInstruction:
+			writers = append(writers, x)
+		case *ssa.MakeInterface:
+			for _, u2 := range *x.Referrers() {
+				if ci, ok := u2.(ssa.CallInstruction); ok {
+					writers = append(writers, ci)
+				} else if _, ok := u2.(*ssa.DebugRef); !ok {
+					return nil
+				}
+			}
+		case *ssa.DebugRef:
+		default:
+			return nil // field/index addresses, closures, phis: not tracked
+		}
+	}
+	var best *ssa.UnOp
+	for _, l1 := range loads {
+		if l1 == ld || !instrDominates(l1, ld) {
+			continue
+		}
+		ok := true
+		for _, w := range writers {
+			if instrReaches(w, ld, l1) && !instrDominates(w, l1) {
+				ok = false
+				break
+			}
+			if instrDominates(w, l1) && instrReaches(w, ld, l1) && instrReaches(l1, w, nil) {
+				ok = false
+				break
+			}
+		}
+		if ok && (best == nil || instrDominates(l1, best)) {
+			best = l1
+		}
+	}
+	if best != nil {
+		loadRepCache[ld] = best
+		return best
+	}
+	return nil
+}
+
+// restContract: library decoders that return the unconsumed rest of their input never return more than they got:
+// rest, err := asn1.Unmarshal(b, &v) and block, rest := pem.Decode(b) have len(rest) <= len(b).
+func (lb *LB) restContract(x *ssa.Extract, call *ssa.Call, me lin) []cons {
+	id := calleeID(&call.Call)
+	switch {
+	case (id == "encoding/asn1.Unmarshal" || id == "encoding/asn1.UnmarshalWithParams") && x.Index == 0,
+		id == "encoding/pem.Decode" && x.Index == 1:
+		return []cons{le(me, lb.lenLin(call.Call.Args[0]))}
+	}
+	return nil
+}
+
+// intContract: facts about the arguments and results of a repo function that hold whenever it returned a nil
+// error. The guarantee side is checked by checkIntContracts on every non-failing return of the function, with the
+// same facts assumed for its own recursive calls (induction on the recursion depth).
+type intContract struct {
+	facts       func(lb *LB, arg func(i int) ssa.Value, resInt func(i int) lin) []cons
+	desc        string
+	errIndex    int
+	intResults  []int
+	justifiedBy string
+}
+
+var repoIntContracts = map[string]intContract{}
+
+func init() {
+	repoIntContracts["x509.readObject"] = intContract{
+		desc:       "on success: 0 <= offset < len(ber) and next offset >= offset+2",
+		errIndex:   2,
+		intResults: []int{1},
+		facts: func(lb *LB, arg func(i int) ssa.Value, res func(i int) lin) []cons {
+			off, n := lb.linOf(arg(1)), lb.lenLin(arg(0))
+			return []cons{ge(off, linConst(0)), le(off, n.addScaled(linConst(1), -1)), ge(res(1), off.addScaled(linConst(2), 1))}
+		},
+		justifiedBy: "B-CONTRACT obligations on x509.readObject",
+	}
+}
+
+// nilTestFacts: facts implied by `v == nil` (isNil) or `v != nil`
+func (lb *LB) nilTestFacts(v ssa.Value, isNil bool) []cons {
+	ex, ok := v.(*ssa.Extract)
+	if !ok {
+		return nil
+	}
+	call, ok := ex.Tuple.(*ssa.Call)
+	if !ok {
+		return nil
+	}
+	sibling := func(i int) ssa.Value {
+		for _, u := range *call.Referrers() {
+			if e2, ok := u.(*ssa.Extract); ok && e2.Index == i {
+				return e2
+			}
+		}
+		return nil
+	}
+	id := calleeID(&call.Call)
+	switch {
+	case id == "encoding/asn1.Unmarshal" || id == "encoding/asn1.UnmarshalWithParams":
+		// err == nil, or rest != nil (rest is nil on every error): a whole TLV, at least two bytes, was consumed
+		if (ex.Index == 1 && isNil) || (ex.Index == 0 && !isNil) {
+			if rest := sibling(0); rest != nil {
+				return []cons{le(linVar(lvar{1, lenBase(rest)}), lb.lenLin(call.Call.Args[0]).addScaled(linConst(2), -1))}
+			}
+		}
+	case id == "encoding/pem.Decode":
+		// block != nil: at least the BEGIN line was consumed
+		if ex.Index == 0 && !isNil {
+			if rest := sibling(1); rest != nil {
+				return []cons{le(linVar(lvar{1, lenBase(rest)}), lb.lenLin(call.Call.Args[0]).addScaled(linConst(1), -1))}
+			}
+		}
+	}
+	if sc := call.Call.StaticCallee(); sc != nil && inRepo(sc) {
+		if ct, ok := repoIntContracts[fname(sc)]; ok && ex.Index == ct.errIndex && isNil {
+			lb.UsedContracts[fname(sc)] = true
+			return ct.facts(lb, func(i int) ssa.Value { return call.Call.Args[i] }, func(i int) lin {
+				if r := sibling(i); r != nil {
+					return linVar(lvar{0, r})
+				}
+				return linVar(lvar{0, call})
+			})
+		}
+	}
+	return nil
+}
+
+// loopLowerInvariant: phi >= its entry value, when every back-edge value is >= the entry value under that hypothesis
+var loopLowerCache = map[*ssa.Phi]int{}
+
+func (lb *LB) loopLowerInvariant(phi *ssa.Phi) (lin, bool) {
+	h := phi.Block()
+	var entry ssa.Value
+	for i := range phi.Edges {
+		if !h.Dominates(h.Preds[i]) {
+			if entry != nil && entry != phi.Edges[i] {
+				return lin{}, false
+			}
+			entry = phi.Edges[i]
+		}
+	}
+	if entry == nil {
+		return lin{}, false
+	}
+	L := lb.linOf(entry)
+	if _, dep := L.c[lvar{0, phi}]; dep {
+		return lin{}, false
+	}
+	switch loopLowerCache[phi] {
+	case 1, 3:
+		return lin{}, false
+	case 2:
+		return L, true
+	}
+	loopLowerCache[phi] = 1
+	me := linVar(lvar{0, phi})
+	ok := true
+	for i, e := range phi.Edges {
+		p := h.Preds[i]
+		if !h.Dominates(p) {
+			continue
+		}
+		facts := append(lb.edgeFacts(p, h), ge(me, L))
+		if !lb.proveWith([]cons{ge(lb.linOf(e), L)}, append(facts, lb.extra...), map[lvar]lin{}, 2) {
+			ok = false
+			break
+		}
+	}
+	if ok {
+		loopLowerCache[phi] = 2
+		return L, true
+	}
+	loopLowerCache[phi] = 3
+	return lin{}, false
+}
+
+func isLoopHeader(h *ssa.BasicBlock) bool {
+	for _, p := range h.Preds {
+		if h.Dominates(p) {
+			return true
+		}
+	}
+	return false
+}
+
+// ---- affine lower bounds relative to one base (a constant or an integer parameter): v >= base + c.
+// A small forward analysis that spares the prover a case split per phi: constants, parameters, unsigned values,
+// x + k, x - k, widening conversions, phis (meet of the incoming bounds; loop-header phis by checking that the
+// entry bound is preserved by every back edge).
+
+type relBound struct {
+	base *ssa.Parameter // nil: constant base
+	c    int64
+	ok   bool
+}
+
+func meetLower(a, b relBound) relBound {
+	if !a.ok || !b.ok || a.base != b.base {
+		return relBound{}
+	}
+	if b.c < a.c {
+		return b
+	}
+	return a
+}
+
+func (lb *LB) lowerRel(v ssa.Value, assume map[*ssa.Phi]relBound, depth int) relBound {
+	if depth > 40 {
+		return relBound{}
+	}
+	if k, ok := constInt(v); ok {
+		return relBound{nil, k, true}
+	}
+	bits, uns, isInt := intKind(v.Type())
+	if !isInt {
+		return relBound{}
+	}
+	fallback := relBound{}
+	if uns {
+		fallback = relBound{nil, 0, true}
+	}
+	switch x := v.(type) {
+	case *ssa.Parameter:
+		if !uns {
+			return relBound{x, 0, true}
+		}
+	case *ssa.BinOp:
+		if bits < 64 {
+			return fallback // narrow arithmetic may wrap
+		}
+		switch x.Op {
+		case token.ADD:
+			a, b := lb.lowerRel(x.X, assume, depth+1), lb.lowerRel(x.Y, assume, depth+1)
+			if a.ok && b.ok {
+				if b.base == nil {
+					return relBound{a.base, a.c + b.c, true}
+				}
+				if a.base == nil {
+					return relBound{b.base, a.c + b.c, true}
+				}
+			}
+		case token.SUB:
+			if !uns {
+				if k, ok := constInt(x.Y); ok {
+					a := lb.lowerRel(x.X, assume, depth+1)
+					if a.ok {
+						return relBound{a.base, a.c - k, true}
+					}
+				}
+			}
+		case token.AND, token.REM:
+			if lb.nonneg(x, 0) {
+				return relBound{nil, 0, true}
+			}
+		}
+	case *ssa.Convert:
+		sb, su, ok1 := intKind(x.X.Type())
+		if ok1 && bits > sb && !uns {
+			return lb.lowerRel(x.X, assume, depth+1)
+		}
+		if ok1 && bits >= sb && su && !uns && bits == 64 {
+			return lb.lowerRel(x.X, assume, depth+1)
+		}
+	case *ssa.Call:
+		if bi, ok := x.Call.Value.(*ssa.Builtin); ok && (bi.Name() == "len" || bi.Name() == "cap") {
+			return relBound{nil, 0, true}
+		}
+	case *ssa.Phi:
+		if b, ok := assume[x]; ok {
+			return b
+		}
+		h := x.Block()
+		if !isLoopHeader(h) {
+			var r relBound
+			for i, e := range x.Edges {
+				b := lb.lowerRel(e, assume, depth+1)
+				if i == 0 {
+					r = b
+				} else {
+					r = meetLower(r, b)
+				}
+				if !r.ok {
+					return fallback
+				}
+			}
+			return r
+		}
+		var cand relBound
+		first := true
+		for i, e := range x.Edges {
+			if h.Dominates(h.Preds[i]) {
+				continue
+			}
+			b := lb.lowerRel(e, assume, depth+1)
+			if first {
+				cand, first = b, false
+			} else {
+				cand = meetLower(cand, b)
+			}
+		}
+		if first || !cand.ok {
+			return fallback
+		}
+		as := map[*ssa.Phi]relBound{x: cand}
+		for k, v := range assume {
+			as[k] = v
+		}
+		for i, e := range x.Edges {
+			if !h.Dominates(h.Preds[i]) {
+				continue
+			}
+			b := lb.lowerRel(e, as, depth+1)
+			if !b.ok || b.base != cand.base || b.c < cand.c {
+				return fallback
+			}
+		}
+		return cand
+	}
+	return fallback
 }
